@@ -9,9 +9,14 @@ package tsm1
 import (
 	"encoding/binary"
 	"errors"
+
+	"github.com/golang/snappy"
 )
 
 var vSnappyErrCorrupt = errors.New("snappy: corrupt input")
+
+// vSnappyFacade compresses like WAL.writeToLog (snappy.Encode is replaced in the engine).
+func vSnappyFacade(raw []byte) []byte { return snappy.Encode(nil, raw) }
 
 func vSnappyMaxEncodedLen(srcLen int) int { return srcLen + binary.MaxVarintLen64 }
 
